@@ -186,6 +186,13 @@ def _candidates(data):
     return out
 
 
+class _Fixed:
+    """A record body that is already resolved (wrapper so that _resolve passes it through)."""
+
+    def __init__(self, v):
+        self.v = v
+
+
 class _Broken:
     """A back-pointer that does not lead to a record of the same object: nothing a faithful copy could contain."""
 
@@ -198,6 +205,8 @@ class _Broken:
 
 def _resolve(data, body, want_oid=None, depth=0):
     import struct
+    if isinstance(body, _Fixed):
+        return body.v
     if not isinstance(body, tuple):
         return body
     back = body[1]
@@ -215,13 +224,20 @@ def _resolve(data, body, want_oid=None, depth=0):
     return _resolve(data, ('back', struct.unpack('>Q', data[back + 42:back + 50])[0]), want_oid, depth + 1)
 
 
-def _judge(inp, outdata, damage_start, orig_txns):
-    """The recovery oracle.  inp: damaged input bytes; outdata: bytes of the recovered file."""
+def _judge(inp, outdata, damage_start, orig_txns, orig_bytes=None):
+    """The recovery oracle.  inp: damaged input bytes; outdata: bytes of the recovered file.  orig_bytes (optional): the
+    file before the damage - a recovered transaction may also equal the UNDAMAGED original (met when a redirected
+    back-pointer still names the right transaction and restore() re-derives the pointer from that hint)."""
     try:
         out = fsparse.parse(outdata, check_rec_tid=False)   # a damaged record tid is copied as found
     except fsparse.BadFile as ex:
         fail('recovered file is not a well-formed data file', str(ex))
     cands = _candidates(inp)
+    if orig_bytes is not None:
+        for tid_, cs_ in _candidates(orig_bytes).items():
+            for pos_, meta_, crecs_ in cs_:
+                # resolved against the undamaged file, at the same position
+                cands.setdefault(tid_, []).append((pos_, meta_, [(o_, _Fixed(_resolve(orig_bytes, b_, o_))) for o_, b_ in crecs_]))
     last_pos = -1
     for t in out:
         cs = cands.get(t.tid)
@@ -245,13 +261,28 @@ def _run_recover(env, budget):
     _quiet()
     env.fs.read_fuel = budget
     note('budget', budget)
+    import signal
+
+    class _Stuck(BaseException):
+        pass
+
+    def _alarm(sig, frm):
+        raise _Stuck()
+    # (a loop that spins inside a buffered reader issues no further raw reads: a wall-clock watchdog backs the read budget up;
+    # an ordinary run takes well under a second)
+    old_handler = signal.signal(signal.SIGALRM, _alarm)
+    signal.alarm(30)
     try:
         FR.recover(SRC, OUT, verbose=0, partial=False, force=True)
+    except _Stuck:
+        fail('fsrecover does not terminate (still running after 30 s on a file of %d bytes)' % len(env.fs.content(SRC)))
     except vfs.FuelExhausted:
         fail('fsrecover does not terminate (read budget of %d operations exhausted)' % budget)
     except SystemExit as ex:
         fail('fsrecover gave up', str(ex))
     finally:
+        signal.alarm(0)
+        signal.signal(signal.SIGALRM, old_handler)
         env.fs.read_fuel = None
 
 
@@ -328,6 +359,37 @@ def h_recover_damaged(off: int, template: str, nbytes: int, cls: int) -> None:
         _run_recover(env, 8 * len(full) + 400)
         _judge(dmg, bytes(env.fs.content(OUT)), d, orig)
         dst = F.FileStorage(OUT)          # and the result opens as a storage
+        dst.close()
+    reached()
+
+
+def h_recover_backptr(rsel: int, tsel: int, template: str) -> None:
+    """The 8 bytes of a back-pointer (solver-chosen record) are replaced by the position of a solver-chosen data record
+    of the file - an earlier one, the record itself, or a later one (a pointer that does not lead backwards can close a
+    cycle).  The recovery tool terminates and emits only unchanged input transactions."""
+    with untraced():
+        import struct
+        env, s, m_ = _source(template)
+        s.close()
+        full = bytes(env.fs.content(SRC))
+        orig = fsparse.parse(full)
+        recs = []            # (position of the data record, has a back-pointer)
+        for t in orig:
+            for r in t.records:
+                recs.append((r.pos, r.plen == 0))
+        ptrs = [p_ for p_, isback in recs if isback]
+        assume(ptrs)
+    victim = ptrs[choose(rsel, len(ptrs))]
+    target = recs[choose(tsel, len(recs))][0]
+    with untraced():
+        dmg = full[:victim + 42] + struct.pack('>Q', target) + full[victim + 50:]
+        assume(dmg != full)
+        note('case', 'self' if target == victim else ('back' if target < victim else 'forward'))
+        env.fs.put(SRC, dmg)
+        env.fs.os.remove(SRC + '.index')
+        _run_recover(env, 8 * len(full) + 400)
+        _judge(dmg, bytes(env.fs.content(OUT)), victim, orig, orig_bytes=full)
+        dst = F.FileStorage(OUT)
         dst.close()
     reached()
 
@@ -416,6 +478,12 @@ HARNESSES = [
             code=['ZODB.blob.copyTransactionsFromTo', 'BlobStorageMixin.restoreBlob/loadBlob/is_blob_record', 'FileStorage.restore', 'FileIterator'],
             quick=dict(timeout=200, shards=shards(dest=['file', 'blobproxy'])),
             thorough=dict(timeout=600, shards=shards(dest=['file', 'blobproxy']))),
+    Harness('recover_backptr', h_recover_backptr,
+            decides='with the back-pointer of any undo record redirected to any data record of the file (earlier, itself, later) the '
+                    'recovery tool terminates and emits only unchanged input transactions',
+            symbolic='record selector (records with a back-pointer), target selector (all data records)', bounds='templates T4, T12',
+            oracle='independent parser + read budget', code=['fsrecover.recover', 'FileStorageFormatter._loadBack_impl', 'TransactionRecordIterator'],
+            quick=dict(timeout=100, shards=shards(template=['T4', 'T12'])), thorough=dict(timeout=300, shards=shards(template=['T2', 'T4', 'T5', 'T12']))),
     Harness('recover_clean', h_recover_clean,
             decides='fsrecover on an undamaged file reproduces the history (every revision query)',
             symbolic='template selector', bounds='templates T1-T6, T10', oracle='RevStore battery',
